@@ -1,3 +1,1211 @@
-From Coq Require Import List Arith ZArith Bool Lia.
+(* C06 — proofs about the model of deblend_sources (C06_Model.v).
+   Part 1: list facts (uniq_labels, relabel maps, tabulate, slices);
+   Part 2: the merge invariant (refinement of the input segmentation);
+   Part 3: the final relabel;
+   Part 4: schedule independence (collect / parallel = serial);
+   Part 5: the statements used by C06_Properties.v. *)
+From Coq Require Import List Arith ZArith Bool Lia Sorted Permutation.
 From PV Require Import lib.Cases C06_Model.
 Import ListNotations.
+
+(* ------------------------------------------------------------------ *)
+(* Part 1: list facts                                                  *)
+(* ------------------------------------------------------------------ *)
+Lemma mem_In v l : mem v l = true <-> In v l.
+Proof.
+  unfold mem. rewrite existsb_exists. split.
+  - intros [x [Hx E]]. apply Nat.eqb_eq in E. subst. exact Hx.
+  - intros H. exists v. split; [exact H|apply Nat.eqb_refl].
+Qed.
+
+Lemma maxl_ge v l : In v l -> v <= maxl l.
+Proof.
+  induction l as [|a l IH]; [intros []|]. intros [->|H]; cbn.
+  - apply Nat.le_max_l.
+  - specialize (IH H). unfold maxl in IH. lia.
+Qed.
+
+Lemma maxl_le b l : (forall v, In v l -> v <= b) -> maxl l <= b.
+Proof.
+  induction l as [|a l IH]; intros H; cbn; [lia|].
+  assert (a <= b) by (apply H; left; reflexivity).
+  assert (maxl l <= b) by (apply IH; intros v Hv; apply H; right; exact Hv).
+  unfold maxl in *. lia.
+Qed.
+
+Lemma maxl_In l : l <> [] -> In (maxl l) l.
+Proof.
+  induction l as [|a l IH]; [congruence|]. intros _. cbn.
+  destruct l as [|b l'].
+  - cbn. left. lia.
+  - assert (H : In (maxl (b :: l')) (b :: l')) by (apply IH; discriminate).
+    unfold maxl in *. cbn in *.
+    destruct (Nat.max_spec a (Nat.max b (fold_right Nat.max 0 l'))) as [[_ E]|[_ E]]; rewrite E.
+    + right. exact H.
+    + left. reflexivity.
+Qed.
+
+Lemma minl_le v l d : In v l -> minl l d <= v.
+Proof.
+  induction l as [|a l IH]; [intros []|]. intros [->|H]; cbn.
+  - apply Nat.le_min_l.
+  - specialize (IH H). unfold minl in IH. lia.
+Qed.
+
+Lemma uniq_labels_In v vals : In v (uniq_labels vals) <-> v <> 0 /\ In v vals.
+Proof.
+  unfold uniq_labels. rewrite filter_In, in_seq, mem_In. split.
+  - intros [H1 H2]. split; [lia|exact H2].
+  - intros [H1 H2]. split; [|exact H2]. pose proof (maxl_ge _ _ H2). lia.
+Qed.
+
+Lemma sorted_filter_seq f a n : StronglySorted lt (filter f (seq a n)).
+Proof.
+  revert a; induction n as [|n IH]; intros a; cbn; [constructor|].
+  destruct (f a).
+  - constructor; [apply IH|]. apply Forall_forall. intros x Hx.
+    apply filter_In in Hx. destruct Hx as [Hx _]. apply in_seq in Hx. lia.
+  - apply IH.
+Qed.
+
+Lemma uniq_labels_sorted vals : StronglySorted lt (uniq_labels vals).
+Proof. apply sorted_filter_seq. Qed.
+
+Lemma uniq_labels_NoDup vals : NoDup (uniq_labels vals).
+Proof. apply NoDup_filter, seq_NoDup. Qed.
+
+Lemma filter_all {A} (f : A -> bool) l : (forall x, In x l -> f x = true) -> filter f l = l.
+Proof.
+  induction l as [|a l IH]; intros H; cbn; [reflexivity|].
+  rewrite (H a) by (left; reflexivity). f_equal. apply IH. intros x Hx. apply H. right. exact Hx.
+Qed.
+
+(* characterisation: the non-zero values are exactly 1..n *)
+Lemma uniq_labels_seq vals n :
+  (forall v, (v <> 0 /\ In v vals) <-> 1 <= v <= n) -> uniq_labels vals = seq 1 n.
+Proof.
+  intros H. unfold uniq_labels.
+  assert (Hmax : maxl vals = n).
+  { apply Nat.le_antisymm.
+    - apply maxl_le. intros v Hv. destruct (Nat.eq_dec v 0) as [->|Hne]; [lia|].
+      apply H. split; assumption.
+    - destruct (Nat.eq_dec n 0) as [->|Hn]; [lia|].
+      apply maxl_ge. apply (H n). lia. }
+  rewrite Hmax. apply filter_all. intros x Hx. apply in_seq in Hx. apply mem_In. apply (H x). lia.
+Qed.
+
+(* a strictly increasing list from a whose last element is a+len-1 is seq a len *)
+Lemma sorted_last_ge l : forall a, StronglySorted lt l -> l <> [] -> (forall x, In x l -> a <= x) ->
+  a + length l - 1 <= last l 0 /\ (last l 0 = a + length l - 1 -> l = seq a (length l)).
+Proof.
+  induction l as [|x r IH]; intros a Hs Hne Hge; [congruence|].
+  inversion Hs as [|? ? Hs' Hall]; subst.
+  assert (Hax : a <= x) by (apply Hge; left; reflexivity).
+  destruct r as [|y r'].
+  - cbn. split; [lia|]. intros E. f_equal. lia.
+  - assert (Hne' : y :: r' <> []) by discriminate.
+    assert (Hge' : forall z, In z (y :: r') -> S x <= z).
+    { intros z Hz. rewrite Forall_forall in Hall. specialize (Hall z Hz). lia. }
+    destruct (IH (S x) Hs' Hne' Hge') as [H1 H2].
+    change (last (x :: y :: r') 0) with (last (y :: r') 0).
+    cbn [length] in *. split; [lia|].
+    intros E. assert (x = a) by lia. subst x.
+    cbn [seq]. f_equal. apply H2. lia.
+Qed.
+
+Lemma sorted_consecutive l : StronglySorted lt l -> l <> [] -> hd 0 l = 1 ->
+  last l 0 = length l -> l = seq 1 (length l).
+Proof.
+  intros Hs Hne Hhd Hlast.
+  assert (Hge : forall x, In x l -> 1 <= x).
+  { destruct l as [|a r]; [congruence|]. cbn in Hhd. subst a.
+    inversion Hs as [|? ? _ Hall]; subst. rewrite Forall_forall in Hall.
+    intros x [<-|Hx]; [lia|]. specialize (Hall x Hx). lia. }
+  destruct (sorted_last_ge l 1 Hs Hne Hge) as [_ H]. apply H. lia.
+Qed.
+
+(* index_of *)
+Lemma index_of_lt x l : In x l -> index_of x l < length l.
+Proof.
+  induction l as [|a l IH]; [intros []|]. intros Hin. cbn.
+  destruct (a =? x) eqn:E; [lia|]. apply Nat.eqb_neq in E.
+  destruct Hin as [->|Hin]; [congruence|]. specialize (IH Hin). lia.
+Qed.
+
+Lemma index_of_nth x l : In x l -> nth (index_of x l) l 0 = x.
+Proof.
+  induction l as [|a l IH]; [intros []|]. intros Hin. cbn.
+  destruct (a =? x) eqn:E; [apply Nat.eqb_eq in E; auto|]. apply Nat.eqb_neq in E.
+  destruct Hin as [->|Hin]; [congruence|auto].
+Qed.
+
+Lemma index_of_inj x y l : In x l -> In y l -> index_of x l = index_of y l -> x = y.
+Proof. intros Hx Hy E. rewrite <- (index_of_nth x l Hx), <- (index_of_nth y l Hy), E. reflexivity. Qed.
+
+Lemma index_of_nth_nodup i l : NoDup l -> i < length l -> index_of (nth i l 0) l = i.
+Proof.
+  revert i; induction l as [|a l IH]; intros i Hnd Hi; [cbn in Hi; lia|].
+  inversion Hnd as [|? ? Hnotin Hnd']; subst. destruct i as [|i]; cbn.
+  - rewrite Nat.eqb_refl. reflexivity.
+  - cbn in Hi. destruct (a =? nth i l 0) eqn:E.
+    + apply Nat.eqb_eq in E. exfalso. apply Hnotin. rewrite E. apply nth_In. lia.
+    + f_equal. apply IH; auto. lia.
+Qed.
+
+(* relabel_fun on a duplicate-free list of non-zero labels *)
+Lemma relabel_fun_zero labs v : relabel_fun labs v = 0 <-> ~ In v labs.
+Proof.
+  unfold relabel_fun. destruct (mem v labs) eqn:E.
+  - apply mem_In in E. split; [discriminate|tauto].
+  - split; [|reflexivity]. intros _ H. apply mem_In in H. congruence.
+Qed.
+
+Lemma relabel_fun_range labs v : In v labs -> 1 <= relabel_fun labs v <= length labs.
+Proof.
+  intros H. unfold relabel_fun. rewrite (proj2 (mem_In v labs) H).
+  pose proof (index_of_lt v labs H). lia.
+Qed.
+
+Lemma relabel_fun_inj labs u v : In u labs -> In v labs ->
+  relabel_fun labs u = relabel_fun labs v -> u = v.
+Proof.
+  intros Hu Hv. unfold relabel_fun.
+  rewrite (proj2 (mem_In u labs) Hu), (proj2 (mem_In v labs) Hv). intros E.
+  apply (index_of_inj u v labs Hu Hv). lia.
+Qed.
+
+Lemma relabel_fun_surj labs k : NoDup labs -> 1 <= k <= length labs ->
+  exists v, In v labs /\ relabel_fun labs v = k.
+Proof.
+  intros Hnd Hk. exists (nth (k - 1) labs 0).
+  assert (Hin : In (nth (k - 1) labs 0) labs) by (apply nth_In; lia).
+  split; [exact Hin|]. unfold relabel_fun. rewrite (proj2 (mem_In _ labs) Hin).
+  rewrite index_of_nth_nodup by (auto; lia). lia.
+Qed.
+
+(* what _create_relabel_map guarantees, for labs = uniq_labels vals *)
+Definition relabel_ok (vals : list nat) (f : nat -> nat) : Prop :=
+  f 0 = 0 /\
+  (forall v, In v vals -> (f v = 0 <-> v = 0)) /\
+  (forall u v, In u vals -> In v vals -> u <> 0 -> f u = f v -> u = v) /\
+  uniq_labels (map f vals) = seq 1 (length (uniq_labels vals)).
+
+Lemma create_relabel_map_spec vals :
+  match create_relabel_map (uniq_labels vals) with
+  | None => uniq_labels vals = seq 1 (length (uniq_labels vals))
+  | Some f => relabel_ok vals f
+  end.
+Proof.
+  unfold create_relabel_map. set (labs := uniq_labels vals).
+  destruct (length labs =? 0) eqn:E0.
+  - apply Nat.eqb_eq in E0. rewrite E0. destruct labs; [reflexivity|discriminate].
+  - apply Nat.eqb_neq in E0.
+    destruct ((hd 0 labs =? 1) && (last labs 0 - 1 + 1 =? length labs)) eqn:E1.
+    + apply andb_true_iff in E1. destruct E1 as [Eh El].
+      apply Nat.eqb_eq in Eh. apply Nat.eqb_eq in El.
+      assert (Hne : labs <> []) by (intros Hn; rewrite Hn in E0; cbn in E0; lia).
+      apply sorted_consecutive; auto; [apply uniq_labels_sorted|].
+      assert (1 <= last labs 0).
+      { pose proof (proj1 (uniq_labels_In (last labs 0) vals)) as H.
+        assert (Hin : In (last labs 0) labs).
+        { destruct (exists_last Hne) as [l' [a Ea]]. rewrite Ea, last_last. apply in_or_app. right. left. reflexivity. }
+        specialize (H Hin). lia. }
+      lia.
+    + assert (Hlabs : forall v, In v labs <-> v <> 0 /\ In v vals) by (intros v; apply uniq_labels_In).
+      split; [|split; [|split]].
+      * apply relabel_fun_zero. rewrite Hlabs. tauto.
+      * intros v Hv. rewrite relabel_fun_zero, Hlabs. split.
+        -- intros H. destruct (Nat.eq_dec v 0); [assumption|]. exfalso. apply H. tauto.
+        -- intros -> [H _]. congruence.
+      * intros u v Hu Hv Hne E.
+        assert (Hul : In u labs) by (apply Hlabs; tauto).
+        assert (Hvl : In v labs).
+        { apply Hlabs. split; [|exact Hv]. intros ->.
+          pose proof (relabel_fun_range labs u Hul).
+          assert (relabel_fun labs 0 = 0) by (apply relabel_fun_zero; rewrite Hlabs; tauto). lia. }
+        apply (relabel_fun_inj labs); assumption.
+      * apply uniq_labels_seq. intros k. rewrite in_map_iff. split.
+        -- intros [Hk [v [Ev Hv]]]. subst k.
+           assert (In v labs).
+           { apply Hlabs. split; [|exact Hv]. intros ->. apply Hk. apply relabel_fun_zero. rewrite Hlabs. tauto. }
+           apply relabel_fun_range. assumption.
+        -- intros Hk. destruct (relabel_fun_surj labs k (uniq_labels_NoDup vals) Hk) as [v [Hv Ev]].
+           split; [lia|]. exists v. split; [exact Ev|]. apply Hlabs. exact Hv.
+Qed.
+
+(* tabulate / at2 *)
+Lemma at2_tabulate ny nx f y x : y < ny -> x < nx -> at2 (tabulate ny nx f) y x = f y x.
+Proof.
+  intros Hy Hx. unfold at2, tabulate.
+  rewrite (nth_indep _ [] (map (f 0) (seq 0 nx))) by (rewrite map_length, seq_length; exact Hy).
+  rewrite (map_nth (fun y => map (f y) (seq 0 nx)) (seq 0 ny) 0 y), seq_nth by exact Hy.
+  cbn [plus]. rewrite (nth_indep _ 0 (f y 0)) by (rewrite map_length, seq_length; exact Hx).
+  rewrite (map_nth (f y) (seq 0 nx) 0 x), seq_nth by exact Hx. reflexivity.
+Qed.
+
+Lemma in_concat_tabulate ny nx f v :
+  In v (concat (tabulate ny nx f)) <-> exists y x, y < ny /\ x < nx /\ f y x = v.
+Proof.
+  unfold tabulate. rewrite in_concat. split.
+  - intros [row [Hrow Hv]]. apply in_map_iff in Hrow. destruct Hrow as [y [<- Hy]].
+    apply in_map_iff in Hv. destruct Hv as [x [<- Hx]].
+    apply in_seq in Hy. apply in_seq in Hx. exists y, x. repeat split; lia.
+  - intros [y [x [Hy [Hx <-]]]]. exists (map (f y) (seq 0 nx)). split.
+    + apply in_map_iff. exists y. split; [reflexivity|apply in_seq; lia].
+    + apply in_map_iff. exists x. split; [reflexivity|apply in_seq; lia].
+Qed.
+
+Lemma at2_map_map (f : nat -> nat) (a : img2) y x : f 0 = 0 -> at2 (map (map f) a) y x = f (at2 a y x).
+Proof.
+  intros H0. unfold at2.
+  change (@nil nat) with (map f []) at 1. rewrite map_nth.
+  rewrite <- H0 at 1. rewrite map_nth. reflexivity.
+Qed.
+
+Lemma concat_map_map (f : nat -> nat) (a : img2) : concat (map (map f) a) = map f (concat a).
+Proof. symmetry. apply concat_map. Qed.
+
+Lemma in_allpix ny nx y x : In (y, x) (allpix ny nx) <-> y < ny /\ x < nx.
+Proof. unfold allpix. rewrite in_prod_iff, !in_seq. lia. Qed.
+
+Lemma in_slice_pixels s y x : In (y, x) (slice_pixels s) <-> in_slice s y x = true.
+Proof.
+  destruct s as [[[y0 y1] x0] x1]. unfold slice_pixels, in_slice.
+  rewrite in_prod_iff, !in_seq, !andb_true_iff, !Nat.leb_le, !Nat.ltb_lt. lia.
+Qed.
+
+Lemma in_seq_1 v n : In v (seq 1 n) <-> 1 <= v <= n.
+Proof. rewrite in_seq. lia. Qed.
+
+Lemma map_add_seq m a k : map (fun c => c + m) (seq a k) = seq (a + m) k.
+Proof. revert a; induction k as [|k IH]; intros a; cbn; [reflexivity|]. f_equal. apply (IH (S a)). Qed.
+
+(* dict_set (Python dict assignment) *)
+Lemma keys_dict_set k v d q : In q (map fst (dict_set k v d)) <-> q = k \/ In q (map fst d).
+Proof.
+  induction d as [|[k' v'] r IH]; cbn.
+  - intuition.
+  - destruct (k' =? k) eqn:E; cbn.
+    + apply Nat.eqb_eq in E. subst k'. intuition.
+    + rewrite IH. intuition.
+Qed.
+
+Lemma NoDup_keys_dict_set k v d : NoDup (map fst d) -> NoDup (map fst (dict_set k v d)).
+Proof.
+  induction d as [|[k' v'] r IH]; cbn; intros H.
+  - constructor; [intros []|constructor].
+  - inversion H as [|? ? Hnotin Hnd]; subst. destruct (k' =? k) eqn:E; cbn.
+    + apply Nat.eqb_eq in E. subst k'. constructor; assumption.
+    + apply Nat.eqb_neq in E. constructor; [|apply IH; exact Hnd].
+      rewrite keys_dict_set. intros [->|Hin]; [congruence|contradiction].
+Qed.
+
+Lemma In_dict_set k v d p cs : NoDup (map fst d) ->
+  In (p, cs) (dict_set k v d) -> (p = k /\ cs = v) \/ (p <> k /\ In (p, cs) d).
+Proof.
+  induction d as [|[k' v'] r IH]; cbn; intros Hnd.
+  - intros [E|[]]. inversion E. left. split; reflexivity.
+  - inversion Hnd as [|? ? Hnotin Hnd']; subst. destruct (k' =? k) eqn:E.
+    + apply Nat.eqb_eq in E. subst k'. intros [H|H].
+      * inversion H. left. split; reflexivity.
+      * right. split; [|right; exact H]. intros ->. apply Hnotin.
+        apply in_map_iff. exists (k, cs). split; [reflexivity|exact H].
+    + apply Nat.eqb_neq in E. intros [H|H].
+      * inversion H; subst. right. split; [exact E|left; reflexivity].
+      * destruct (IH Hnd' H) as [?|[? ?]]; [left; assumption|right; split; [assumption|right; assumption]].
+Qed.
+
+Lemma In_dict_set_new k v d : In (k, v) (dict_set k v d).
+Proof.
+  induction d as [|[k' v'] r IH]; cbn; [left; reflexivity|].
+  destruct (k' =? k); [left; reflexivity|right; exact IH].
+Qed.
+
+(* ------------------------------------------------------------------ *)
+(* Part 2: the merge loop refines the input segmentation               *)
+(* ------------------------------------------------------------------ *)
+Section Merge.
+Variables (ny nx : nat) (seg : img2).
+
+Notation sg := (sg ny nx seg).
+Notation segvals := (segvals ny nx seg).
+Notation slice_of := (slice_of ny nx seg).
+Notation pix_of := (pix_of ny nx seg).
+
+(* l is a label of the input segmentation image *)
+Definition islabel (l : nat) : Prop := In l (uniq_labels segvals).
+
+Lemma sg_frame y x : sg y x <> 0 -> y < ny /\ x < nx.
+Proof.
+  unfold C06_Model.sg. destruct ((y <? ny) && (x <? nx)) eqn:E; [|congruence].
+  apply andb_true_iff in E. rewrite !Nat.ltb_lt in E. intros _. exact E.
+Qed.
+
+Lemma in_segvals v : In v segvals <-> exists y x, y < ny /\ x < nx /\ sg y x = v.
+Proof.
+  unfold C06_Model.segvals. rewrite in_map_iff. split.
+  - intros [[y x] [E H]]. apply in_allpix in H. exists y, x. tauto.
+  - intros [y [x [Hy [Hx E]]]]. exists (y, x). split; [exact E|apply in_allpix; tauto].
+Qed.
+
+Lemma islabel_spec l : islabel l <-> l <> 0 /\ exists y x, y < ny /\ x < nx /\ sg y x = l.
+Proof. unfold islabel. rewrite uniq_labels_In, in_segvals. reflexivity. Qed.
+
+Lemma sg_le y x : sg y x <= maxl segvals.
+Proof.
+  destruct (Nat.eq_dec (sg y x) 0) as [E|E]; [lia|].
+  apply maxl_ge. apply in_segvals. destruct (sg_frame y x E). exists y, x. tauto.
+Qed.
+
+Lemma islabel_le l : islabel l -> l <= maxl segvals.
+Proof. intros H. apply islabel_spec in H. destruct H as [_ [y [x [_ [_ <-]]]]]. apply sg_le. Qed.
+
+Lemma slice_covers l y x : l <> 0 -> sg y x = l -> in_slice (slice_of l) y x = true.
+Proof.
+  intros Hl E. assert (Hf : y < ny /\ x < nx) by (apply sg_frame; congruence).
+  assert (Hin : In (y, x) (pix_of l)).
+  { unfold C06_Model.pix_of. apply filter_In. split; [apply in_allpix; exact Hf|]. apply Nat.eqb_eq. exact E. }
+  unfold C06_Model.slice_of, in_slice. fold (pix_of l).
+  assert (Hy : In y (map fst (pix_of l))) by (apply in_map_iff; exists (y, x); auto).
+  assert (Hx : In x (map snd (pix_of l))) by (apply in_map_iff; exists (y, x); auto).
+  pose proof (minl_le _ _ ny Hy). pose proof (maxl_ge _ _ Hy).
+  pose proof (minl_le _ _ nx Hx). pose proof (maxl_ge _ _ Hx).
+  rewrite !andb_true_iff, !Nat.leb_le, !Nat.ltb_lt. lia.
+Qed.
+
+(* values of a per-source result over the pixels of the slice *)
+Definition cut_vals (sl : slice) (child : nat -> nat -> nat) : list nat :=
+  map (fun '(y, x) => child (cy sl y) (cx sl x)) (slice_pixels sl).
+Definition child_vals (sl : slice) (child : nat -> nat -> nat) : list nat :=
+  filter (fun c => 0 <? c) (cut_vals sl child).
+
+Lemma In_cut_vals sl child v :
+  In v (cut_vals sl child) <-> exists y x, in_slice sl y x = true /\ child (cy sl y) (cx sl x) = v.
+Proof.
+  unfold cut_vals. rewrite in_map_iff. split.
+  - intros [[y x] [E H]]. exists y, x. split; [apply in_slice_pixels; exact H|exact E].
+  - intros [y [x [H E]]]. exists (y, x). split; [exact E|apply in_slice_pixels; exact H].
+Qed.
+
+Lemma In_child_vals sl child v : In v (child_vals sl child) <-> v <> 0 /\ In v (cut_vals sl child).
+Proof. unfold child_vals. rewrite filter_In, Nat.ltb_lt. split; intros [? ?]; split; auto; lia. Qed.
+
+(* (G) footprint guard and (R) children are exactly 1..k with k >= 2 *)
+Definition good_child (l : nat) (child : nat -> nat -> nat) : Prop :=
+  (forall y x, in_slice (slice_of l) y x = true ->
+      (sg y x = l <-> child (cy (slice_of l) y) (cx (slice_of l) x) <> 0)) /\
+  exists k, 2 <= k /\ uniq_labels (child_vals (slice_of l) child) = seq 1 k.
+
+Definition good_post (l : nat) (p : post) : Prop :=
+  match p with PSome child => good_child l child | _ => True end.
+
+(* the tail of deblend_source (guard, one-label test, consecutive relabel) establishes
+   (G) and (R) whatever the watershed stage returned *)
+Lemma post_good l r : islabel l -> good_post l (deblend_source_post ny nx seg l (slice_of l) r).
+Proof.
+  intros Hl. unfold deblend_source_post. destruct r as [m|]; [|exact I].
+  set (sl := slice_of l). set (mk := fun i j => at2 m i j).
+  destruct (negb (forallb _ (slice_pixels sl))) eqn:EG; [exact I|].
+  apply negb_false_iff in EG. rewrite forallb_forall in EG.
+  assert (G : forall y x, in_slice sl y x = true -> (sg y x = l <-> mk (cy sl y) (cx sl x) <> 0)).
+  { intros y x H. apply in_slice_pixels in H. specialize (EG _ H). cbn in EG.
+    apply eqb_prop in EG. rewrite <- Nat.eqb_eq, EG, negb_true_iff, Nat.eqb_neq. reflexivity. }
+  change (map (fun '(y, x) => mk (cy sl y) (cx sl x)) (slice_pixels sl)) with (cut_vals sl mk).
+  set (vals := cut_vals sl mk). set (labs := uniq_labels vals).
+  destruct (length labs =? 1) eqn:E1; [exact I|]. apply Nat.eqb_neq in E1.
+  assert (Hk : 2 <= length labs).
+  { apply islabel_spec in Hl. destruct Hl as [Hl0 [y [x [_ [_ E]]]]].
+    pose proof (slice_covers l y x Hl0 E) as Hs. fold sl in Hs.
+    assert (Hin : In (mk (cy sl y) (cx sl x)) labs).
+    { apply uniq_labels_In. split; [apply G; assumption|]. apply In_cut_vals. exists y, x. auto. }
+    destruct labs; [destruct Hin|]. cbn in *. lia. }
+  pose proof (create_relabel_map_spec vals) as Hspec. fold labs in Hspec.
+  destruct (create_relabel_map labs) as [f|].
+  - destruct Hspec as [_ [Hz [_ Hseq]]]. split.
+    + intros y x H. rewrite (G y x H). fold sl.
+      assert (Hv : In (mk (cy sl y) (cx sl x)) vals) by (apply In_cut_vals; exists y, x; auto).
+      specialize (Hz _ Hv). tauto.
+    + exists (length labs). split; [exact Hk|]. fold sl.
+      apply uniq_labels_seq. intros v. rewrite In_child_vals.
+      assert (Hcv : cut_vals sl (fun i j => f (mk i j)) = map f vals).
+      { unfold vals, cut_vals. rewrite map_map. apply map_ext. intros [y x]. reflexivity. }
+      rewrite Hcv. rewrite <- in_seq_1. unfold labs. rewrite <- Hseq, uniq_labels_In. tauto.
+  - split; [exact G|]. exists (length labs). split; [exact Hk|]. fold sl.
+    apply uniq_labels_seq. intros v. rewrite In_child_vals. fold vals.
+    rewrite <- in_seq_1, <- Hspec. unfold labs. rewrite uniq_labels_In. tauto.
+Qed.
+
+(* ---- the invariant of the merge loop ---- *)
+Record Inv (s : st) : Prop := {
+  inv_sup : forall y x, out s y x <> 0 <-> sg y x <> 0;
+  inv_max0 : maxl segvals <= maxlab s;
+  inv_bound : forall y x, out s y x <= maxlab s;
+  inv_keys : NoDup (map fst (dmap s));
+  inv_map : forall p cs, In (p, cs) (dmap s) ->
+      islabel p /\ 2 <= length cs /\ NoDup cs /\
+      (forall c, In c cs -> maxl segvals < c <= maxlab s) /\
+      (forall y x, In (out s y x) cs <-> sg y x = p) /\
+      (forall c, In c cs -> exists y x, out s y x = c);
+  inv_other : forall q, islabel q -> ~ In q (map fst (dmap s)) ->
+      forall y x, out s y x = q <-> sg y x = q
+}.
+
+Definition init_st : st :=
+  {| out := sg; dmap := []; maxlab := maxl segvals; npm := []; nmk := [] |}.
+
+Lemma Inv_init : Inv init_st.
+Proof.
+  constructor; cbn.
+  - tauto.
+  - lia.
+  - apply sg_le.
+  - constructor.
+  - intros p cs [].
+  - tauto.
+Qed.
+
+Lemma merge_one_skip s l p w : (forall c, p <> PSome c) ->
+  out (merge_one ny nx seg s (l, (p, w))) = out s /\
+  dmap (merge_one ny nx seg s (l, (p, w))) = dmap s /\
+  maxlab (merge_one ny nx seg s (l, (p, w))) = maxlab s.
+Proof.
+  intros H. destruct w as [w1 w2]. destruct p as [| |c]; [| |exfalso; apply (H c); reflexivity];
+    cbn; auto.
+Qed.
+
+Lemma out_merge_raw s l child w y x :
+  out (merge_one ny nx seg s (l, (PSome child, w))) y x =
+  if in_slice (slice_of l) y x && (0 <? child (cy (slice_of l) y) (cx (slice_of l) x))
+  then child (cy (slice_of l) y) (cx (slice_of l) x) + maxlab s else out s y x.
+Proof. destruct w as [w1 w2]. reflexivity. Qed.
+
+Lemma out_merge s l child w y x : l <> 0 -> good_child l child ->
+  out (merge_one ny nx seg s (l, (PSome child, w))) y x =
+  if sg y x =? l then child (cy (slice_of l) y) (cx (slice_of l) x) + maxlab s else out s y x.
+Proof.
+  intros Hl [G _]. rewrite out_merge_raw.
+  destruct (in_slice (slice_of l) y x) eqn:Es; cbn [andb].
+  - specialize (G y x Es).
+    destruct (0 <? child (cy (slice_of l) y) (cx (slice_of l) x)) eqn:Ec.
+    + apply Nat.ltb_lt in Ec. assert (E : sg y x = l) by (apply G; lia).
+      apply Nat.eqb_eq in E. rewrite E. reflexivity.
+    + apply Nat.ltb_ge in Ec. destruct (sg y x =? l) eqn:E; [|reflexivity].
+      apply Nat.eqb_eq in E. apply G in E. lia.
+  - destruct (sg y x =? l) eqn:E; [|reflexivity]. apply Nat.eqb_eq in E.
+    rewrite (slice_covers l y x Hl E) in Es. discriminate.
+Qed.
+
+Lemma dmap_merge s l child w :
+  dmap (merge_one ny nx seg s (l, (PSome child, w))) =
+  dict_set l (map (fun c => c + maxlab s) (uniq_labels (child_vals (slice_of l) child))) (dmap s).
+Proof. destruct w as [w1 w2]. reflexivity. Qed.
+
+Lemma maxlab_merge s l child w :
+  maxlab (merge_one ny nx seg s (l, (PSome child, w))) =
+  maxlab s + length (uniq_labels (child_vals (slice_of l) child)).
+Proof. destruct w as [w1 w2]. cbn. rewrite map_length. reflexivity. Qed.
+
+Lemma merge_one_inv s l p w : Inv s -> islabel l -> good_post l p ->
+  Inv (merge_one ny nx seg s (l, (p, w))).
+Proof.
+  intros HI Hl Hg. destruct p as [| |child].
+  1,2: (match goal with |- Inv (merge_one _ _ _ _ (_, (?p, _))) =>
+          destruct (merge_one_skip s l p w) as [Eo [Ed Em]] end; [intros c; discriminate|];
+        destruct HI as [H1 H2 H3 H4 H5 H6]; constructor; rewrite ?Eo, ?Ed, ?Em; assumption).
+  cbn in Hg. assert (Hl0 : l <> 0) by (apply islabel_spec in Hl; tauto).
+  pose proof (out_merge s l child w) as Eo.
+  pose proof (dmap_merge s l child w) as Ed. pose proof (maxlab_merge s l child w) as Em.
+  set (s' := merge_one ny nx seg s (l, (PSome child, w))) in *.
+  pose proof Hg as Hg0. destruct Hg0 as [G [k [Hk R]]].
+  specialize (fun y x => Eo y x Hl0 Hg).
+  rewrite R in Ed, Em. rewrite seq_length in Em. rewrite map_add_seq in Ed.
+  set (ml := maxlab s) in *. set (sl := slice_of l) in *.
+  (* facts about the children *)
+  assert (C1 : forall y x, sg y x = l -> 1 <= child (cy sl y) (cx sl x) <= k).
+  { intros y x E. pose proof (slice_covers l y x Hl0 E) as Hs. fold sl in Hs.
+    apply in_seq_1. rewrite <- R. apply uniq_labels_In.
+    assert (child (cy sl y) (cx sl x) <> 0) by (apply G; assumption).
+    split; [assumption|]. apply In_child_vals. split; [assumption|].
+    apply In_cut_vals. exists y, x. auto. }
+  assert (C2 : forall j, 1 <= j <= k -> exists y x, sg y x = l /\ child (cy sl y) (cx sl x) = j).
+  { intros j Hj. apply in_seq_1 in Hj. rewrite <- R in Hj. apply uniq_labels_In in Hj.
+    destruct Hj as [Hj0 Hj]. apply In_child_vals in Hj. destruct Hj as [_ Hj].
+    apply In_cut_vals in Hj. destruct Hj as [y [x [Hs E]]]. exists y, x. split; [|exact E].
+    apply G; [exact Hs|]. fold sl. lia. }
+  destruct HI as [H1 H2 H3 H4 H5 H6].
+  constructor.
+  - intros y x. rewrite Eo. destruct (sg y x =? l) eqn:E.
+    + apply Nat.eqb_eq in E. pose proof (C1 y x E). split; intros _; [congruence|lia].
+    + apply H1.
+  - lia.
+  - intros y x. rewrite Eo, Em. destruct (sg y x =? l) eqn:E.
+    + apply Nat.eqb_eq in E. pose proof (C1 y x E). lia.
+    + specialize (H3 y x). lia.
+  - rewrite Ed. apply NoDup_keys_dict_set. exact H4.
+  - intros p cs Hin. rewrite Ed in Hin. apply In_dict_set in Hin; [|exact H4].
+    destruct Hin as [[-> ->]|[Hpl Hin]].
+    + split; [exact Hl|]. split; [rewrite seq_length; exact Hk|]. split; [apply seq_NoDup|].
+      split; [|split].
+      * intros c Hc. apply in_seq in Hc. rewrite Em. lia.
+      * intros y x. rewrite Eo, in_seq. destruct (sg y x =? l) eqn:E.
+        -- apply Nat.eqb_eq in E. pose proof (C1 y x E). split; intros _; [exact E|lia].
+        -- apply Nat.eqb_neq in E. specialize (H3 y x). split; [lia|congruence].
+      * intros c Hc. apply in_seq in Hc. destruct (C2 (c - ml)) as [y [x [E Ec]]]; [lia|].
+        exists y, x. rewrite Eo. apply Nat.eqb_eq in E. rewrite E, Ec. lia.
+    + destruct (H5 p cs Hin) as [Hp [Hlen [Hnd [Hrange [Hpart Hne]]]]].
+      split; [exact Hp|]. split; [exact Hlen|]. split; [exact Hnd|]. split; [|split].
+      * intros c Hc. specialize (Hrange c Hc). lia.
+      * intros y x. rewrite Eo. destruct (sg y x =? l) eqn:E.
+        -- apply Nat.eqb_eq in E. pose proof (C1 y x E). split.
+           ++ intros Hc. specialize (Hrange _ Hc). lia.
+           ++ congruence.
+        -- apply Hpart.
+      * intros c Hc. destruct (Hne c Hc) as [y [x E]]. exists y, x. rewrite Eo.
+        assert (Hsp : sg y x = p) by (apply Hpart; rewrite E; exact Hc).
+        destruct (sg y x =? l) eqn:E'; [|exact E]. apply Nat.eqb_eq in E'. congruence.
+  - intros q Hq Hnk y x. rewrite Ed, keys_dict_set in Hnk.
+    assert (q <> l) by tauto. assert (Hnk' : ~ In q (map fst (dmap s))) by tauto.
+    rewrite Eo. destruct (sg y x =? l) eqn:E.
+    + apply Nat.eqb_eq in E. pose proof (C1 y x E). pose proof (islabel_le q Hq). split; [lia|congruence].
+    + apply H6; assumption.
+Qed.
+
+(* ---- the serial loop ---- *)
+Section Serial.
+Variable raw : nat -> option img2.
+Variable warns : nat -> bool * bool.
+
+Lemma fold_serial_None labels :
+  fold_left (serial_step ny nx seg raw warns) labels None = None.
+Proof. induction labels as [|l r IH]; cbn; auto. Qed.
+
+Lemma worker_good l : islabel l -> good_post l (fst (worker ny nx seg raw warns l)).
+Proof. intros H. unfold worker. cbn. apply post_good. exact H. Qed.
+
+Lemma serial_cons l r s0 :
+  serial ny nx seg raw warns (l :: r) s0 =
+  if is_fail (fst (worker ny nx seg raw warns l)) then None
+  else serial ny nx seg raw warns r (merge_one ny nx seg s0 (l, worker ny nx seg raw warns l)).
+Proof.
+  unfold serial. cbn [fold_left].
+  change (serial_step ny nx seg raw warns (Some s0) l) with
+    (if is_fail (fst (worker ny nx seg raw warns l)) then None
+     else Some (merge_one ny nx seg s0 (l, worker ny nx seg raw warns l))).
+  destruct (is_fail (fst (worker ny nx seg raw warns l))); [apply fold_serial_None|reflexivity].
+Qed.
+
+Lemma serial_inv labels : forall s0 s, Forall islabel labels -> Inv s0 ->
+  serial ny nx seg raw warns labels s0 = Some s -> Inv s.
+Proof.
+  induction labels as [|l r IH]; intros s0 s Hall HI E.
+  - inversion E. subst. exact HI.
+  - inversion Hall as [|? ? Hl Hr]; subst. rewrite serial_cons in E.
+    destruct (is_fail (fst (worker ny nx seg raw warns l))) eqn:Ef; [discriminate|].
+    apply (IH _ s Hr) in E; [exact E|].
+    pose proof (worker_good l Hl) as Hg.
+    destruct (worker ny nx seg raw warns l) as [p w]. apply merge_one_inv; assumption.
+Qed.
+
+End Serial.
+
+(* ------------------------------------------------------------------ *)
+(* Part 3: the returned image refines the input                        *)
+(* ------------------------------------------------------------------ *)
+Record Refines (relabel : bool) (r : result) : Prop := {
+  rf_sup : forall y x, y < ny -> x < nx -> (at2 (r_data r) y x <> 0 <-> sg y x <> 0);
+  rf_keys : NoDup (map fst (r_dmap r));
+  rf_map : forall p cs, In (p, cs) (r_dmap r) ->
+     islabel p /\ 2 <= length cs /\ NoDup cs /\ ~ In 0 cs /\
+     (forall y x, y < ny -> x < nx -> (In (at2 (r_data r) y x) cs <-> sg y x = p)) /\
+     (forall c, In c cs -> exists y x, y < ny /\ x < nx /\ at2 (r_data r) y x = c);
+  rf_other : forall q, islabel q -> ~ In q (map fst (r_dmap r)) ->
+     exists q', (relabel = false -> q' = q) /\ q' <> 0 /\
+       forall y x, y < ny -> x < nx -> (at2 (r_data r) y x = q' <-> sg y x = q);
+  rf_consec : relabel = true -> exists n, uniq_labels (concat (r_data r)) = seq 1 n;
+  rf_input : r_input r = seg
+}.
+
+Lemma NoDup_map_inj_on (f : nat -> nat) l :
+  NoDup l -> (forall u v, In u l -> In v l -> f u = f v -> u = v) -> NoDup (map f l).
+Proof.
+  induction l as [|a l IH]; intros Hnd Hinj; cbn; [constructor|].
+  inversion Hnd as [|? ? Hnotin Hnd']; subst. constructor.
+  - intros Hin. apply in_map_iff in Hin. destruct Hin as [b [E Hb]].
+    assert (b = a) by (apply Hinj; [right; exact Hb|left; reflexivity|exact E]). subst. contradiction.
+  - apply IH; [exact Hnd'|]. intros u v Hu Hv. apply Hinj; right; assumption.
+Qed.
+
+Lemma Inv_pixel_frame s c : Inv s -> c <> 0 -> forall y x, out s y x = c -> y < ny /\ x < nx.
+Proof. intros HI Hc y x E. apply sg_frame. apply (inv_sup s HI). congruence. Qed.
+
+(* without a relabel map *)
+Lemma plain_refines s relabel :
+  Inv s -> (relabel = true -> exists n, uniq_labels (concat (tabulate ny nx (out s))) = seq 1 n) ->
+  Refines relabel {| r_data := tabulate ny nx (out s); r_dmap := dmap s; r_npm := npm s;
+                     r_nmk := nmk s; r_input := seg |}.
+Proof.
+  intros HI Hc. pose proof HI as [H1 H2 H3 H4 H5 H6]. constructor; cbn [r_data r_dmap r_input].
+  - intros y x Hy Hx. rewrite at2_tabulate by assumption. apply H1.
+  - exact H4.
+  - intros p cs Hin. destruct (H5 p cs Hin) as [Hp [Hlen [Hnd [Hrange [Hpart Hne]]]]].
+    split; [exact Hp|]. split; [exact Hlen|]. split; [exact Hnd|]. split; [|split].
+    + intros Hz0. specialize (Hrange 0 Hz0). lia.
+    + intros y x Hy Hx. rewrite at2_tabulate by assumption. apply Hpart.
+    + intros c Hc'. destruct (Hne c Hc') as [y [x E]].
+      assert (c <> 0) by (specialize (Hrange c Hc'); lia).
+      destruct (Inv_pixel_frame s c HI H y x E) as [Hy Hx].
+      exists y, x. rewrite at2_tabulate by assumption. auto.
+  - intros q Hq Hnk. exists q. split; [reflexivity|]. split; [apply islabel_spec in Hq; tauto|].
+    intros y x Hy Hx. rewrite at2_tabulate by assumption. apply H6; assumption.
+  - exact Hc.
+  - reflexivity.
+Qed.
+
+Lemma finish_refines relabel dtmax s r :
+  Inv s -> finish ny nx seg relabel dtmax s = Ok r -> Refines relabel r.
+Proof.
+  intros HI. unfold finish.
+  destruct (match dtmax with Some m => (m <? Z.of_nat (maxlab s))%Z | None => false end); [discriminate|].
+  destruct relabel.
+  2:{ intros E. inversion E. apply plain_refines; [exact HI|discriminate]. }
+  set (outl := tabulate ny nx (out s)). set (vals := concat outl).
+  pose proof (create_relabel_map_spec vals) as Hspec.
+  destruct (create_relabel_map (uniq_labels vals)) as [f|]; intros E; inversion E; clear E.
+  2:{ apply plain_refines; [exact HI|]. intros _. eexists. exact Hspec. }
+  destruct Hspec as [F0 [Fz [Finj Fseq]]].
+  pose proof HI as [H1 H2 H3 H4 H5 H6].
+  assert (Hvals : forall y x, y < ny -> x < nx -> In (out s y x) vals).
+  { intros y x Hy Hx. apply in_concat_tabulate. exists y, x. auto. }
+  assert (Hat : forall y x, y < ny -> x < nx -> at2 (map (map f) outl) y x = f (out s y x)).
+  { intros y x Hy Hx. rewrite at2_map_map by exact F0. unfold outl. rewrite at2_tabulate by assumption. reflexivity. }
+  assert (Hkeys : map fst (map (fun '(p, cs) => (p, map f cs)) (dmap s)) = map fst (dmap s)).
+  { rewrite map_map. apply map_ext. intros [p cs]. reflexivity. }
+  (* every child label occurs in the array, in the frame *)
+  assert (Hchild : forall p cs c, In (p, cs) (dmap s) -> In c cs -> c <> 0 /\ In c vals).
+  { intros p cs c Hin Hc. destruct (H5 p cs Hin) as [_ [_ [_ [Hrange [_ Hne]]]]].
+    assert (c <> 0) by (specialize (Hrange c Hc); lia). split; [assumption|].
+    destruct (Hne c Hc) as [y [x Ey]]. destruct (Inv_pixel_frame s c HI H y x Ey). rewrite <- Ey. auto. }
+  constructor; cbn [r_data r_dmap r_input].
+  - intros y x Hy Hx. rewrite Hat by assumption. rewrite <- H1.
+    specialize (Fz _ (Hvals y x Hy Hx)). tauto.
+  - rewrite Hkeys. exact H4.
+  - intros p cs' Hin. apply in_map_iff in Hin. destruct Hin as [[p0 cs] [E Hin]].
+    inversion E; subst p0 cs'; clear E.
+    destruct (H5 p cs Hin) as [Hp [Hlen [Hnd [Hrange [Hpart Hne]]]]].
+    split; [exact Hp|]. split; [rewrite map_length; exact Hlen|]. split; [|split; [|split]].
+    + apply NoDup_map_inj_on; [exact Hnd|]. intros u v Hu Hv Ef.
+      destruct (Hchild p cs u Hin Hu). destruct (Hchild p cs v Hin Hv). apply Finj; assumption.
+    + intros Hz0. apply in_map_iff in Hz0. destruct Hz0 as [c [Ec Hc]].
+      destruct (Hchild p cs c Hin Hc) as [Hc0 Hcv]. specialize (Fz c Hcv). tauto.
+    + intros y x Hy Hx. rewrite Hat by assumption. rewrite <- Hpart. split.
+      * intros Hm. apply in_map_iff in Hm. destruct Hm as [c [Ec Hc]].
+        destruct (Hchild p cs c Hin Hc) as [Hc0 Hcv].
+        assert (c = out s y x) by (apply Finj; auto). subst c. exact Hc.
+      * apply in_map.
+    + intros c' Hc'. apply in_map_iff in Hc'. destruct Hc' as [c [<- Hc]].
+      destruct (Hne c Hc) as [y [x Ey]]. destruct (Hchild p cs c Hin Hc) as [Hc0 _].
+      destruct (Inv_pixel_frame s c HI Hc0 y x Ey) as [Hy Hx].
+      exists y, x. rewrite Hat by assumption. rewrite Ey. auto.
+  - intros q Hq Hnk. rewrite Hkeys in Hnk. exists (f q).
+    assert (Hq0 : q <> 0) by (apply islabel_spec in Hq; tauto).
+    assert (Hqv : In q vals).
+    { destruct (proj1 (islabel_spec q) Hq) as [_ [y [x [Hy [Hx E]]]]].
+      apply (H6 q Hq Hnk) in E. rewrite <- E. auto. }
+    split; [discriminate|]. split; [specialize (Fz q Hqv); tauto|].
+    intros y x Hy Hx. rewrite Hat by assumption. rewrite <- (H6 q Hq Hnk). split.
+    + intros Ef. symmetry. apply Finj; auto.
+    + intros ->. reflexivity.
+  - intros _. eexists. unfold outl in *. rewrite concat_map_map. exact Fseq.
+  - reflexivity.
+Qed.
+End Merge.
+
+(* ------------------------------------------------------------------ *)
+(* Part 3b: each child has at least npixels pixels, GIVEN that every    *)
+(* label of the watershed output has (hypothesis (W), library numerics) *)
+(* ------------------------------------------------------------------ *)
+Definition atleast (n : nat) (P : nat -> nat -> Prop) : Prop :=
+  exists ps : list (nat * nat), NoDup ps /\ n <= length ps /\ forall y x, In (y, x) ps -> P y x.
+
+Lemma atleast_impl n (P Q : nat -> nat -> Prop) :
+  (forall y x, P y x -> Q y x) -> atleast n P -> atleast n Q.
+Proof. intros H [ps [H1 [H2 H3]]]. exists ps. split; [exact H1|]. split; [exact H2|]. intros y x Hin. apply H, H3, Hin. Qed.
+
+Section Npix.
+Variables (ny nx : nat) (seg : img2) (npix : nat).
+Notation sg := (sg ny nx seg).
+Notation slice_of := (slice_of ny nx seg).
+Notation islabel := (islabel ny nx seg).
+Notation Inv := (Inv ny nx seg).
+Notation good_post := (good_post ny nx seg).
+Notation good_child := (good_child ny nx seg).
+
+Definition big_child (l : nat) (child : nat -> nat -> nat) : Prop :=
+  forall j, j <> 0 -> In j (cut_vals (slice_of l) child) ->
+    atleast npix (fun y x => in_slice (slice_of l) y x = true /\
+                             child (cy (slice_of l) y) (cx (slice_of l) x) = j).
+Definition big_post (l : nat) (p : post) : Prop :=
+  match p with PSome child => big_child l child | _ => True end.
+(* (W): every label of the array returned by apply_watershed for parent l covers at
+   least npixels pixels of the cutout *)
+Definition watershed_big (l : nat) (r : option img2) : Prop :=
+  match r with Some m => big_child l (fun i j => at2 m i j) | None => True end.
+
+Lemma post_big l r : watershed_big l r -> big_post l (deblend_source_post ny nx seg l (slice_of l) r).
+Proof.
+  intros W. unfold deblend_source_post. destruct r as [m|]; [|exact I].
+  set (sl := slice_of l) in *. set (mk := fun i j => at2 m i j) in *.
+  destruct (negb (forallb _ (slice_pixels sl))); [exact I|].
+  change (map (fun '(y, x) => mk (cy sl y) (cx sl x)) (slice_pixels sl)) with (cut_vals sl mk).
+  set (vals := cut_vals sl mk).
+  destruct (length (uniq_labels vals) =? 1); [exact I|].
+  pose proof (create_relabel_map_spec vals) as Hspec.
+  destruct (create_relabel_map (uniq_labels vals)) as [f|]; [|exact W].
+  destruct Hspec as [F0 _]. intros j Hj0 Hin. fold sl in Hin. fold sl.
+  apply In_cut_vals in Hin. destruct Hin as [y [x [Hs E]]].
+  set (v := mk (cy sl y) (cx sl x)) in *.
+  assert (Hv0 : v <> 0) by (intros Ev; rewrite Ev in E; congruence).
+  assert (Hv : In v (cut_vals sl mk)) by (apply In_cut_vals; exists y, x; auto).
+  apply (atleast_impl npix _ _) with (2 := W v Hv0 Hv).
+  cbn beta. intros y' x' [Hs' E']. split; [exact Hs'|]. fold sl in E'. unfold mk in *. rewrite E'. exact E.
+Qed.
+
+Definition Big (s : st) : Prop :=
+  forall p cs c, In (p, cs) (dmap s) -> In c cs -> atleast npix (fun y x => out s y x = c).
+
+Lemma merge_one_big s l p w : Inv s -> Big s -> islabel l -> good_post l p -> big_post l p ->
+  Big (merge_one ny nx seg s (l, (p, w))).
+Proof.
+  intros HI HB Hl Hg Hb. destruct p as [| |child].
+  1,2: (match goal with |- Big (merge_one _ _ _ _ (_, (?p, _))) =>
+          destruct (merge_one_skip ny nx seg s l p w) as [Eo [Ed Em]] end; [intros c; discriminate|];
+        unfold Big; rewrite Eo, Ed; exact HB).
+  cbn in Hg, Hb. assert (Hl0 : l <> 0) by (apply islabel_spec in Hl; tauto).
+  pose proof (out_merge ny nx seg s l child w) as Eo.
+  pose proof (dmap_merge ny nx seg s l child w) as Ed.
+  pose proof Hg as Hg0. destruct Hg0 as [G [k [Hk R]]].
+  specialize (fun y x => Eo y x Hl0 Hg).
+  rewrite R in Ed. rewrite map_add_seq in Ed.
+  set (ml := maxlab s) in *. set (sl := slice_of l) in *.
+  intros p cs c Hin Hc. rewrite Ed in Hin. apply In_dict_set in Hin; [|apply (inv_keys _ _ _ s HI)].
+  destruct Hin as [[-> ->]|[Hpl Hin]].
+  - apply in_seq in Hc.
+    assert (Hj : In (c - ml) (seq 1 k)) by (apply in_seq; lia).
+    rewrite <- R in Hj. apply uniq_labels_In in Hj. destruct Hj as [Hj0 Hj].
+    apply In_child_vals in Hj. destruct Hj as [_ Hj].
+    apply (atleast_impl npix _ _) with (2 := Hb (c - ml) Hj0 Hj).
+    cbn beta. fold sl. intros y x [Hs E]. rewrite Eo.
+    assert (Es : sg y x = l) by (apply G; [exact Hs|fold sl; lia]).
+    apply Nat.eqb_eq in Es. rewrite Es, E. lia.
+  - apply (atleast_impl npix _ _) with (2 := HB p cs c Hin Hc).
+    cbn beta. intros y x E. rewrite Eo.
+    destruct (inv_map _ _ _ s HI p cs Hin) as [_ [_ [_ [_ [Hpart _]]]]].
+    assert (Hsp : sg y x = p) by (apply Hpart; rewrite E; exact Hc).
+    destruct (sg y x =? l) eqn:E'; [|exact E]. apply Nat.eqb_eq in E'. congruence.
+Qed.
+
+Lemma serial_big raw warns labels : forall s0 s, Forall islabel labels ->
+  (forall l, watershed_big l (raw l)) -> Inv s0 -> Big s0 ->
+  serial ny nx seg raw warns labels s0 = Some s -> Big s.
+Proof.
+  induction labels as [|l r IH]; intros s0 s Hall HW HI HB E.
+  - inversion E. subst. exact HB.
+  - inversion Hall as [|? ? Hl Hr]; subst. rewrite serial_cons in E.
+    destruct (is_fail (fst (worker ny nx seg raw warns l))) eqn:Ef; [discriminate|].
+    pose proof (worker_good ny nx seg raw warns l Hl) as Hg.
+    assert (Hb : big_post l (fst (worker ny nx seg raw warns l))) by (apply post_big, HW).
+    destruct (worker ny nx seg raw warns l) as [p w]. cbn [fst] in *.
+    apply (IH _ s Hr HW) in E; [exact E| |].
+    + apply merge_one_inv; assumption.
+    + apply merge_one_big; assumption.
+Qed.
+
+Lemma finish_big relabel dtmax s r : Inv s -> Big s -> finish ny nx seg relabel dtmax s = Ok r ->
+  forall p cs c, In (p, cs) (r_dmap r) -> In c cs ->
+    atleast npix (fun y x => y < ny /\ x < nx /\ at2 (r_data r) y x = c).
+Proof.
+  intros HI HB. unfold finish.
+  destruct (match dtmax with Some m => (m <? Z.of_nat (maxlab s))%Z | None => false end); [discriminate|].
+  assert (Hplain : forall p cs c, In (p, cs) (dmap s) -> In c cs ->
+            atleast npix (fun y x => y < ny /\ x < nx /\ at2 (tabulate ny nx (out s)) y x = c)).
+  { intros p cs c Hin Hc. apply (atleast_impl npix _ _) with (2 := HB p cs c Hin Hc).
+    cbn beta. intros y x E.
+    destruct (inv_map _ _ _ s HI p cs Hin) as [_ [_ [_ [Hrange _]]]].
+    assert (c <> 0) by (specialize (Hrange c Hc); lia).
+    destruct (Inv_pixel_frame ny nx seg s c HI H y x E) as [Hy Hx].
+    rewrite at2_tabulate by assumption. auto. }
+  destruct relabel.
+  2:{ intros E; inversion E. exact Hplain. }
+  set (outl := tabulate ny nx (out s)) in *. set (vals := concat outl).
+  pose proof (create_relabel_map_spec vals) as Hspec.
+  destruct (create_relabel_map (uniq_labels vals)) as [f|]; intros E; inversion E; clear E; [|exact Hplain].
+  destruct Hspec as [F0 _]. cbn [r_data r_dmap].
+  intros p cs' c' Hin Hc'. apply in_map_iff in Hin. destruct Hin as [[p0 cs] [E Hin]].
+  inversion E; subst p0 cs'; clear E. apply in_map_iff in Hc'. destruct Hc' as [c [<- Hc]].
+  apply (atleast_impl npix _ _) with (2 := Hplain p cs c Hin Hc).
+  cbn beta. intros y x [Hy [Hx E]]. split; [exact Hy|]. split; [exact Hx|].
+  rewrite at2_map_map by exact F0. rewrite E. reflexivity.
+Qed.
+End Npix.
+
+(* ------------------------------------------------------------------ *)
+(* Part 4: schedule independence                                       *)
+(* ------------------------------------------------------------------ *)
+Lemma upd_comm {A} i j (a b : A) l : i <> j -> upd i a (upd j b l) = upd j b (upd i a l).
+Proof.
+  revert i j; induction l as [|x l IH]; intros i j H; [destruct i, j; reflexivity|].
+  destruct i as [|i], j as [|j]; cbn; try reflexivity; [congruence|].
+  f_equal. apply IH. congruence.
+Qed.
+
+Lemma upd_app {A} (v : A) pre x rest : upd (length pre) v (pre ++ x :: rest) = pre ++ v :: rest.
+Proof. induction pre as [|a pre IH]; cbn; [reflexivity|]. f_equal. exact IH. Qed.
+
+Lemma fold_collect_None es : fold_left collect_step es None = None.
+Proof. induction es as [|e es IH]; cbn; auto. Qed.
+
+Lemma collect_step_comm acc a b : fst a <> fst b ->
+  collect_step (collect_step acc a) b = collect_step (collect_step acc b) a.
+Proof.
+  intros H. destruct acc as [slots|]; [|reflexivity].
+  destruct a as [i ra], b as [j rb]. cbn in H. cbn.
+  destruct (is_fail (fst ra)) eqn:Ea, (is_fail (fst rb)) eqn:Eb; cbn; rewrite ?Ea, ?Eb; try reflexivity.
+  f_equal. apply upd_comm. congruence.
+Qed.
+
+(* the order in which the futures complete does not matter *)
+Lemma fold_collect_perm es es' : Permutation es es' -> NoDup (map fst es) ->
+  forall acc, fold_left collect_step es acc = fold_left collect_step es' acc.
+Proof.
+  induction 1 as [|e es es' HP IH|a b es|es1 es2 es3 HP1 IH1 HP2 IH2]; intros Hnd acc.
+  - reflexivity.
+  - cbn. apply IH. inversion Hnd; assumption.
+  - cbn. f_equal. apply collect_step_comm. cbn in Hnd. inversion Hnd as [|? ? Hnotin _]; subst.
+    intros E. apply Hnotin. left. symmetry. exact E.
+  - rewrite IH1 by exact Hnd. apply IH2.
+    apply (Permutation_NoDup (Permutation_map fst HP1)). exact Hnd.
+Qed.
+
+Definition any_fail (rs : list R) : bool := existsb (fun r => is_fail (fst r)) rs.
+
+(* completion in submission order fills the slots from left to right *)
+Lemma fold_collect_inorder rs : forall k pre, length pre = k ->
+  fold_left collect_step (combine (seq k (length rs)) rs) (Some (pre ++ repeat None (length rs))) =
+  if any_fail rs then None else Some (pre ++ map Some rs).
+Proof.
+  induction rs as [|r rs IH]; intros k pre Hk; cbn [length seq combine fold_left repeat any_fail existsb map].
+  - reflexivity.
+  - cbn [collect_step]. destruct (is_fail (fst r)) eqn:Ef; cbn [orb].
+    + apply fold_collect_None.
+    + subst k. rewrite upd_app.
+      replace (pre ++ Some r :: repeat None (length rs)) with ((pre ++ [Some r]) ++ repeat None (length rs))
+        by (rewrite <- app_assoc; reflexivity).
+      rewrite (IH (S (length pre)) (pre ++ [Some r])) by (rewrite app_length; cbn; lia).
+      fold (any_fail rs). destruct (any_fail rs); [reflexivity|].
+      rewrite <- app_assoc. reflexivity.
+Qed.
+
+Lemma NoDup_fst_combine_seq {A} k (rs : list A) : NoDup (map fst (combine (seq k (length rs)) rs)).
+Proof.
+  assert (E : map fst (combine (seq k (length rs)) rs) = seq k (length rs)).
+  { revert k; induction rs as [|r rs IH]; intros k; cbn; [reflexivity|]. f_equal. apply IH. }
+  rewrite E. apply seq_NoDup.
+Qed.
+
+Lemma collect_perm n (rs : list R) events : length rs = n ->
+  Permutation events (combine (seq 0 n) rs) ->
+  collect n events = if any_fail rs then None else Some (map Some rs).
+Proof.
+  intros Hn HP. subst n. unfold collect.
+  rewrite (fold_collect_perm _ _ HP).
+  - apply (fold_collect_inorder rs 0 []). reflexivity.
+  - apply (Permutation_NoDup (Permutation_map fst (Permutation_sym HP))). apply NoDup_fst_combine_seq.
+Qed.
+
+Lemma sequence_map_Some {A} (l : list A) : sequence (map Some l) = Some l.
+Proof. induction l as [|a l IH]; cbn; [reflexivity|]. rewrite IH. reflexivity. Qed.
+
+Lemma map_nth_seq {A B} (g : A -> B) (d : A) l : forall k,
+  map (fun i => (i, g (nth (i - k) l d))) (seq k (length l)) = combine (seq k (length l)) (map g l).
+Proof.
+  induction l as [|a l IH]; intros k; cbn [length seq map combine]; [reflexivity|].
+  rewrite Nat.sub_diag. cbn [nth]. f_equal.
+  rewrite <- (IH (S k)). apply map_ext_in. intros i Hi. apply in_seq in Hi.
+  replace (i - k) with (S (i - S k)) by lia. reflexivity.
+Qed.
+
+Section Schedule.
+Variables (ny nx : nat) (seg : img2).
+Variable raw : nat -> option img2.
+Variable warns : nat -> bool * bool.
+Notation worker := (worker ny nx seg raw warns).
+
+(* the serial loop = run every worker, fail if one fails, otherwise merge in label order *)
+Lemma serial_as_fold labels : forall s0,
+  serial ny nx seg raw warns labels s0 =
+  if any_fail (map worker labels) then None
+  else Some (fold_left (merge_one ny nx seg) (combine labels (map worker labels)) s0).
+Proof.
+  induction labels as [|l r IH]; intros s0; [reflexivity|].
+  rewrite serial_cons. cbn [map any_fail existsb combine fold_left].
+  destruct (is_fail (fst (worker l))); [reflexivity|]. cbn [orb]. apply IH.
+Qed.
+
+Theorem parallel_eq_serial labels order s0 :
+  Permutation order (seq 0 (length labels)) ->
+  parallel ny nx seg raw warns labels order s0 =
+  match serial ny nx seg raw warns labels s0 with None => ParRaise | Some s => ParOk s end.
+Proof.
+  intros HP. unfold parallel.
+  assert (HE : Permutation (map (fun i => (i, worker (nth i labels 0))) order)
+                           (combine (seq 0 (length labels)) (map worker labels))).
+  { rewrite <- (map_nth_seq worker 0 labels 0).
+    eapply Permutation_trans; [apply Permutation_map; exact HP|].
+    apply Permutation_refl'. apply map_ext. intros i. rewrite Nat.sub_0_r. reflexivity. }
+  rewrite (collect_perm (length labels) (map worker labels) _ (map_length _ _) HE).
+  rewrite serial_as_fold. destruct (any_fail (map worker labels)); [reflexivity|].
+  rewrite sequence_map_Some. reflexivity.
+Qed.
+End Schedule.
+
+(* ------------------------------------------------------------------ *)
+(* Part 5: deblend_sources                                             *)
+(* ------------------------------------------------------------------ *)
+Section Top.
+Variables (ny nx : nat) (seg : img2).
+Variable raw : nat -> option img2.
+Variable warns : nat -> bool * bool.
+Notation sg := (sg ny nx seg).
+Notation islabel := (islabel ny nx seg).
+
+Lemma sg_in y x : y < ny -> x < nx -> sg y x = at2 seg y x.
+Proof.
+  intros Hy Hx. unfold C06_Model.sg.
+  rewrite (proj2 (Nat.ltb_lt y ny) Hy), (proj2 (Nat.ltb_lt x nx) Hx). reflexivity.
+Qed.
+
+Lemma islabel_seg q : islabel q <-> q <> 0 /\ exists y x, y < ny /\ x < nx /\ at2 seg y x = q.
+Proof.
+  rewrite islabel_spec. split.
+  - intros [H0 [y [x [Hy [Hx E]]]]]. split; [exact H0|]. exists y, x.
+    rewrite <- sg_in by assumption. auto.
+  - intros [H0 [y [x [Hy [Hx E]]]]]. split; [exact H0|]. exists y, x.
+    rewrite sg_in by assumption. auto.
+Qed.
+
+(* every future completes exactly once: the completion order is a permutation of the
+   submission indices 0..n-1 of the selected labels *)
+Definition valid_schedule (npix : nat) (labels_arg : option (list nat)) (order : list nat) : Prop :=
+  forall labels, selected ny nx seg npix labels_arg = Some labels ->
+    Permutation order (seq 0 (length labels)).
+
+Lemma selected_islabel npix labels_arg labels :
+  selected ny nx seg npix labels_arg = Some labels -> Forall islabel labels.
+Proof.
+  unfold selected. intros E. apply Forall_forall. intros l Hl.
+  destruct labels_arg as [ls|].
+  - destruct (check_labels (uniq_labels (segvals ny nx seg)) ls) eqn:Ec; [|discriminate].
+    inversion E; subst. apply filter_In in Hl. destruct Hl as [Hl _].
+    unfold check_labels in Ec. rewrite forallb_forall in Ec. specialize (Ec l Hl).
+    apply andb_true_iff in Ec. destruct Ec as [_ Ec]. apply mem_In in Ec. exact Ec.
+  - inversion E; subst. apply filter_In in Hl. destruct Hl as [Hl _]. exact Hl.
+Qed.
+
+Theorem schedule_independent_lemma inmap npix labels_arg nlevels contrast mode_ok relabel dtmax nproc order :
+  valid_schedule npix labels_arg order ->
+  deblend_sources ny nx seg raw warns inmap npix labels_arg nlevels contrast mode_ok relabel dtmax nproc order =
+  deblend_sources ny nx seg raw warns inmap npix labels_arg nlevels contrast mode_ok relabel dtmax 1 [].
+Proof.
+  intros HV. unfold deblend_sources. destruct contrast as [cn cd].
+  destruct (nlevels <? 1)%Z; [reflexivity|].
+  destruct ((cn <? 0)%Z || (cd <? cn)%Z); [reflexivity|].
+  destruct (cn =? cd)%Z; [reflexivity|].
+  destruct (negb mode_ok); [reflexivity|].
+  destruct (selected ny nx seg npix labels_arg) as [labels|] eqn:Es; [|reflexivity].
+  destruct (nproc =? 1) eqn:En; [reflexivity|]. cbn [Nat.eqb].
+  rewrite (parallel_eq_serial ny nx seg raw warns labels order _ (HV labels Es)).
+  destruct (serial ny nx seg raw warns labels _); reflexivity.
+Qed.
+
+Lemma deblend_refines inmap npix labels_arg nlevels cn cd mode_ok relabel dtmax nproc order r :
+  deblend_sources ny nx seg raw warns inmap npix labels_arg nlevels (cn, cd) mode_ok relabel dtmax nproc order = Ok r ->
+  cn <> cd -> valid_schedule npix labels_arg order ->
+  Refines ny nx seg relabel r.
+Proof.
+  intros E Hc HV. rewrite (schedule_independent_lemma _ _ _ _ _ _ _ _ _ _ HV) in E.
+  unfold deblend_sources in E.
+  destruct (nlevels <? 1)%Z; [discriminate|].
+  destruct ((cn <? 0)%Z || (cd <? cn)%Z); [discriminate|].
+  destruct (cn =? cd)%Z eqn:Ecc; [apply Z.eqb_eq in Ecc; contradiction|].
+  destruct (negb mode_ok); [discriminate|].
+  destruct (selected ny nx seg npix labels_arg) as [labels|] eqn:Es; [|discriminate].
+  cbn [Nat.eqb] in E.
+  destruct (serial ny nx seg raw warns labels _) as [s|] eqn:Eser; [|discriminate].
+  apply (finish_refines ny nx seg relabel dtmax s r); [|exact E].
+  apply (serial_inv ny nx seg raw warns labels (init_st ny nx seg) s (selected_islabel _ _ _ Es));
+    [apply Inv_init|exact Eser].
+Qed.
+
+Lemma contrast_one_lemma inmap npix labels_arg nlevels c mode_ok relabel dtmax nproc order :
+  (1 <= nlevels)%Z -> (0 <= c)%Z ->
+  deblend_sources ny nx seg raw warns inmap npix labels_arg nlevels (c, c) mode_ok relabel dtmax nproc order =
+  Ok {| r_data := seg; r_dmap := inmap; r_npm := []; r_nmk := []; r_input := seg |}.
+Proof.
+  intros Hn Hc. unfold deblend_sources.
+  destruct (nlevels <? 1)%Z eqn:E1; [apply Z.ltb_lt in E1; lia|].
+  destruct ((c <? 0)%Z || (c <? c)%Z) eqn:E2.
+  { apply orb_true_iff in E2. destruct E2 as [E2|E2]; apply Z.ltb_lt in E2; lia. }
+  rewrite Z.eqb_refl. reflexivity.
+Qed.
+
+Lemma input_not_written_lemma inmap npix labels_arg nlevels contrast mode_ok relabel dtmax nproc order r :
+  deblend_sources ny nx seg raw warns inmap npix labels_arg nlevels contrast mode_ok relabel dtmax nproc order = Ok r ->
+  r_input r = seg.
+Proof.
+  unfold deblend_sources. destruct contrast as [cn cd].
+  destruct (nlevels <? 1)%Z; [discriminate|].
+  destruct ((cn <? 0)%Z || (cd <? cn)%Z); [discriminate|].
+  destruct (cn =? cd)%Z; [intros E; inversion E; reflexivity|].
+  destruct (negb mode_ok); [discriminate|].
+  destruct (selected ny nx seg npix labels_arg) as [labels|]; [|discriminate].
+  assert (F : forall s, finish ny nx seg relabel dtmax s = Ok r -> r_input r = seg).
+  { intros s. unfold finish.
+    destruct (match dtmax with Some m => (m <? Z.of_nat (maxlab s))%Z | None => false end); [discriminate|].
+    destruct relabel; [destruct (create_relabel_map _)|]; intros E; inversion E; reflexivity. }
+  destruct (nproc =? 1).
+  - destruct (serial _ _ _ _ _ _ _) as [s|]; [apply F|discriminate].
+  - destruct (parallel _ _ _ _ _ _ _ _) as [| |s]; [discriminate|discriminate|apply F].
+Qed.
+End Top.
+
+(* ------------------------------------------------------------------ *)
+(* Part 6: the clauses of the property, as used by C06_Properties.v    *)
+(* ------------------------------------------------------------------ *)
+Lemma nonzero_support_unchanged_lemma : forall ny nx seg raw warns inmap npix labels_arg nlevels cn cd mode_ok relabel dtmax nproc order r,
+  deblend_sources ny nx seg raw warns inmap npix labels_arg nlevels (cn, cd) mode_ok relabel dtmax nproc order = Ok r ->
+  cn <> cd -> valid_schedule ny nx seg npix labels_arg order ->
+  forall y x, y < ny -> x < nx -> (at2 (r_data r) y x <> 0 <-> at2 seg y x <> 0).
+Proof.
+  intros ny nx seg raw warns inmap npix labels_arg nlevels cn cd mode_ok relabel dtmax nproc order r E Hc HV.
+  pose proof (deblend_refines _ _ _ _ _ _ _ _ _ _ _ _ _ _ _ _ _ E Hc HV) as [R1 R2 R3 R4 R5 R6].
+  intros y x Hy Hx. rewrite <- (sg_in ny nx seg y x Hy Hx). apply R1; assumption.
+Qed.
+
+Lemma children_partition_parent_lemma : forall ny nx seg raw warns inmap npix labels_arg nlevels cn cd mode_ok relabel dtmax nproc order r,
+  deblend_sources ny nx seg raw warns inmap npix labels_arg nlevels (cn, cd) mode_ok relabel dtmax nproc order = Ok r ->
+  cn <> cd -> valid_schedule ny nx seg npix labels_arg order ->
+  forall p cs, In (p, cs) (r_dmap r) ->
+    (p <> 0 /\ exists y x, y < ny /\ x < nx /\ at2 seg y x = p) /\
+    NoDup cs /\ ~ In 0 cs /\
+    (forall y x, y < ny -> x < nx -> (In (at2 (r_data r) y x) cs <-> at2 seg y x = p)) /\
+    (forall c, In c cs -> exists y x, y < ny /\ x < nx /\ at2 (r_data r) y x = c).
+Proof.
+  intros ny nx seg raw warns inmap npix labels_arg nlevels cn cd mode_ok relabel dtmax nproc order r E Hc HV.
+  pose proof (deblend_refines _ _ _ _ _ _ _ _ _ _ _ _ _ _ _ _ _ E Hc HV) as [R1 R2 R3 R4 R5 R6].
+  intros p cs Hin. destruct (R3 p cs Hin) as [Hp [_ [Hnd [H0 [Hpart Hne]]]]].
+  split; [apply islabel_seg; exact Hp|]. split; [exact Hnd|]. split; [exact H0|]. split; [|exact Hne].
+  intros y x Hy Hx. rewrite <- (sg_in ny nx seg y x Hy Hx). apply Hpart; assumption.
+Qed.
+
+Lemma children_at_least_two_lemma : forall ny nx seg raw warns inmap npix labels_arg nlevels cn cd mode_ok relabel dtmax nproc order r,
+  deblend_sources ny nx seg raw warns inmap npix labels_arg nlevels (cn, cd) mode_ok relabel dtmax nproc order = Ok r ->
+  cn <> cd -> valid_schedule ny nx seg npix labels_arg order ->
+  forall p cs, In (p, cs) (r_dmap r) -> 2 <= length cs.
+Proof.
+  intros ny nx seg raw warns inmap npix labels_arg nlevels cn cd mode_ok relabel dtmax nproc order r E Hc HV.
+  pose proof (deblend_refines _ _ _ _ _ _ _ _ _ _ _ _ _ _ _ _ _ E Hc HV) as [R1 R2 R3 R4 R5 R6].
+  intros p cs Hin. destruct (R3 p cs Hin) as [_ [Hlen _]]. exact Hlen.
+Qed.
+
+Lemma map_matches_pixels_lemma : forall ny nx seg raw warns inmap npix labels_arg nlevels cn cd mode_ok relabel dtmax nproc order r,
+  deblend_sources ny nx seg raw warns inmap npix labels_arg nlevels (cn, cd) mode_ok relabel dtmax nproc order = Ok r ->
+  cn <> cd -> valid_schedule ny nx seg npix labels_arg order ->
+  NoDup (map fst (r_dmap r)) /\
+  (forall p cs p' cs' c, In (p, cs) (r_dmap r) -> In (p', cs') (r_dmap r) -> In c cs -> In c cs' -> p = p') /\
+  (forall y x p cs, y < ny -> x < nx -> In (p, cs) (r_dmap r) ->
+     (In (at2 (r_data r) y x) cs <-> at2 seg y x = p)).
+Proof.
+  intros ny nx seg raw warns inmap npix labels_arg nlevels cn cd mode_ok relabel dtmax nproc order r E Hc HV.
+  pose proof (deblend_refines _ _ _ _ _ _ _ _ _ _ _ _ _ _ _ _ _ E Hc HV) as [R1 R2 R3 R4 R5 R6].
+  split; [exact R2|]. split.
+  - intros p cs p' cs' c Hin Hin' Hc1 Hc2.
+    destruct (R3 p cs Hin) as [_ [_ [_ [_ [Hpart Hne]]]]].
+    destruct (R3 p' cs' Hin') as [_ [_ [_ [_ [Hpart' _]]]]].
+    destruct (Hne c Hc1) as [y [x [Hy [Hx Ey]]]].
+    assert (sg ny nx seg y x = p) by (apply Hpart; [assumption|assumption|rewrite Ey; exact Hc1]).
+    assert (sg ny nx seg y x = p') by (apply Hpart'; [assumption|assumption|rewrite Ey; exact Hc2]).
+    congruence.
+  - intros y x p cs Hy Hx Hin. destruct (R3 p cs Hin) as [_ [_ [_ [_ [Hpart _]]]]].
+    rewrite <- (sg_in ny nx seg y x Hy Hx). apply Hpart; assumption.
+Qed.
+
+Lemma others_untouched_lemma : forall ny nx seg raw warns inmap npix labels_arg nlevels cn cd mode_ok relabel dtmax nproc order r,
+  deblend_sources ny nx seg raw warns inmap npix labels_arg nlevels (cn, cd) mode_ok relabel dtmax nproc order = Ok r ->
+  cn <> cd -> valid_schedule ny nx seg npix labels_arg order ->
+  forall q, q <> 0 -> (exists y x, y < ny /\ x < nx /\ at2 seg y x = q) ->
+    ~ In q (map fst (r_dmap r)) ->
+    exists q', q' <> 0 /\ (relabel = false -> q' = q) /\
+      forall y x, y < ny -> x < nx -> (at2 (r_data r) y x = q' <-> at2 seg y x = q).
+Proof.
+  intros ny nx seg raw warns inmap npix labels_arg nlevels cn cd mode_ok relabel dtmax nproc order r E Hc HV.
+  pose proof (deblend_refines _ _ _ _ _ _ _ _ _ _ _ _ _ _ _ _ _ E Hc HV) as [R1 R2 R3 R4 R5 R6].
+  intros q Hq0 Hq Hnk. assert (Hl : islabel ny nx seg q) by (apply islabel_seg; auto).
+  destruct (R4 q Hl Hnk) as [q' [H1 [H2 H3]]]. exists q'. split; [exact H2|]. split; [exact H1|].
+  intros y x Hy Hx. rewrite <- (sg_in ny nx seg y x Hy Hx). apply H3; assumption.
+Qed.
+
+Lemma labels_consecutive_when_relabel_lemma : forall ny nx seg raw warns inmap npix labels_arg nlevels cn cd mode_ok relabel dtmax nproc order r,
+  deblend_sources ny nx seg raw warns inmap npix labels_arg nlevels (cn, cd) mode_ok relabel dtmax nproc order = Ok r ->
+  cn <> cd -> valid_schedule ny nx seg npix labels_arg order ->
+  relabel = true -> exists n, uniq_labels (concat (r_data r)) = seq 1 n.
+Proof.
+  intros ny nx seg raw warns inmap npix labels_arg nlevels cn cd mode_ok relabel dtmax nproc order r E Hc HV.
+  pose proof (deblend_refines _ _ _ _ _ _ _ _ _ _ _ _ _ _ _ _ _ E Hc HV) as [R1 R2 R3 R4 R5 R6].
+  exact R5.
+Qed.
+
+Lemma child_size_ge_npixels_partial_lemma : forall ny nx seg raw warns inmap npix labels_arg nlevels cn cd mode_ok relabel dtmax nproc order r,
+  deblend_sources ny nx seg raw warns inmap npix labels_arg nlevels (cn, cd) mode_ok relabel dtmax nproc order = Ok r ->
+  cn <> cd -> valid_schedule ny nx seg npix labels_arg order ->
+  (forall l, watershed_big ny nx seg npix l (raw l)) ->
+  forall p cs c, In (p, cs) (r_dmap r) -> In c cs ->
+    exists ps : list (nat * nat), NoDup ps /\ npix <= length ps /\
+      forall y x, In (y, x) ps -> y < ny /\ x < nx /\ at2 (r_data r) y x = c.
+Proof.
+  intros ny nx seg raw warns inmap npix labels_arg nlevels cn cd mode_ok relabel dtmax nproc order r E Hc HV HW.
+  rewrite (schedule_independent_lemma _ _ _ _ _ _ _ _ _ _ _ _ _ _ _ HV) in E.
+  unfold deblend_sources in E.
+  destruct (nlevels <? 1)%Z; [discriminate|].
+  destruct ((cn <? 0)%Z || (cd <? cn)%Z); [discriminate|].
+  destruct (cn =? cd)%Z eqn:Ecc; [apply Z.eqb_eq in Ecc; contradiction|].
+  destruct (negb mode_ok); [discriminate|].
+  destruct (selected ny nx seg npix labels_arg) as [labels|] eqn:Es; [|discriminate].
+  cbn [Nat.eqb] in E.
+  destruct (serial ny nx seg raw warns labels _) as [s|] eqn:Eser; [|discriminate].
+  pose proof (selected_islabel _ _ _ _ _ _ Es) as Hall.
+  assert (HI : Inv ny nx seg s).
+  { apply (serial_inv ny nx seg raw warns labels (init_st ny nx seg) s Hall); [apply Inv_init|exact Eser]. }
+  assert (HB : Big npix s).
+  { apply (serial_big ny nx seg npix raw warns labels (init_st ny nx seg) s Hall HW); [apply Inv_init| |exact Eser].
+    intros p cs c []. }
+  exact (finish_big ny nx seg npix relabel dtmax s r HI HB E).
+Qed.
+
+(* the slot list after all futures completed does not depend on the completion order *)
+Lemma collect_order_independent_lemma : forall (n : nat) (results : list R) (events : list (nat * R)),
+  length results = n -> Permutation events (combine (seq 0 n) results) ->
+  collect n events =
+  if existsb (fun r => is_fail (fst r)) results then None else Some (map Some results).
+Proof. exact collect_perm. Qed.
+
+Lemma per_source_lemma : forall ny nx seg l r child,
+  In l (uniq_labels (segvals ny nx seg)) ->
+  deblend_source_post ny nx seg l (slice_of ny nx seg l) r = PSome child ->
+  (forall y x, in_slice (slice_of ny nx seg l) y x = true ->
+     (sg ny nx seg y x = l <->
+      child (cy (slice_of ny nx seg l) y) (cx (slice_of ny nx seg l) x) <> 0)) /\
+  exists k, 2 <= k /\ uniq_labels (child_vals (slice_of ny nx seg l) child) = seq 1 k.
+Proof.
+  intros ny nx seg l r child Hl E. pose proof (post_good ny nx seg l r Hl) as H.
+  rewrite E in H. exact H.
+Qed.
